@@ -8,6 +8,7 @@ One seeded PRNG drives every choice.
 import random
 
 W = [8, 16, 32, 64, 128]
+NO_BITVEC = False   # set by the generators in --fp mode (corpus common to every feature set)
 
 
 def hexs(s):
@@ -372,6 +373,8 @@ def gen(r, depth):
     if k == 'ph':
         return T('ph', r.choice([T('tup0'), T('u', n=8), sub()]))
     if k == 'bitvec':
+        if NO_BITVEC:
+            return T('vec', T('bool'))
         return T('bitvec', T('u', n=r.choice([8, 16, 32, 64])), T(r.choice(['lsb0', 'msb0'])))
     if k == 'slice_in_box':
         return T(r.choice(['box', 'rc', 'arc', 'ref']), T('slice', sub()))
@@ -419,6 +422,8 @@ def fixed_corpus():
     out += [T('compact', T('u', n=w)) for w in W]
     out += [T('bitvec', T('u', n=w), T(o)) for w in (8, 16, 32, 64) for o in ('lsb0', 'msb0')]
     out += [T('range', u8), T('rangei', u8), T('heap', u8), T('slice', u8), T('vec', u8)]   # the C05/C16 confusables
+    if NO_BITVEC:
+        out = [t for t in out if not any(s.kind in ('bitvec', 'lsb0', 'msb0') for s in t.subterms())]
     return out
 
 
